@@ -1604,6 +1604,11 @@ def correspond(ctx: Ctx) -> None:
         "constrained-primitive variants, then seeded random texts (1-4 classes, chains, 14 property types). "
         "non-trivial = more than one bound/list resp. a text with at least one invariant; distinct by request value"
     )
+    ctx.assumptions.append(
+        "C15: the symbol-table encoder (Wire) and the recognised-form classifier of the oracle (MMOracle) are trusted; "
+        "the stacking order of infer_constraints_by_class and the self-forms of constrained primitives are validated by "
+        "correspondence and the oracle, not proved"
+    )
     run_direct(ctx, True)
     run_mm(ctx, True)
 
